@@ -233,10 +233,10 @@ def c15(tier, seed):
     return generic(
         "C15", tier, seed, scaled_quick=(), scaled_thorough=(), budgets=(150, 2400),
         rule="peak live heap (counting allocator, one child process per measurement) while writing from a generator to a discarding sink, repairing and linearly "
-             "extracting an archive streamed from a scratch file; fixed shape 4 files x 16 interleaved runs, sizes 8 and 64 MiB (quick) or 16, 128 and 1024 MiB "
+             "extracting (all files, or only one with the others skipped) an archive streamed from a scratch file; two shapes (4 files x 16 interleaved runs; one file added in a single piece), sizes 8 and 64 MiB (quick) or 16, 128 and 1024 MiB "
              "(thorough), 4 layer combos, several levels, incompressible and constant data; verdict: peak(largest) - peak(smallest) <= 2 MiB and peak under a frozen "
              "ceiling; distinct = distinct (operation, layers, level, data, size); all non-trivial",
-        musthit=["growth_comparisons:write", "growth_comparisons:repair", "growth_comparisons:extract"],
+        musthit=["growth_comparisons:write", "growth_comparisons:repair", "growth_comparisons:extract", "shape:oneblock", "shape:interleaved:subset_extraction", "shape:oneblock:subset_extraction"],
         assumptions=["decided for the sizes actually streamed; not extrapolated beyond them"],
     )
 
